@@ -25,3 +25,7 @@ Proof. destruct clone_is_deep as (-> & _). apply request_options_independent_fro
 Theorem request_hooks_independent grow ops :
   views (wrun grow clone_hooks ops world0) = prun ops [[]].
 Proof. destruct clone_is_deep as (_ & -> & _). apply request_options_independent_from_start. Qed.
+
+(* Request.do restarts RetryAttempt for every entry point (Send-based verbs, Do) *)
+Lemma do_resets : do_resets_attempt = true.
+Proof. reflexivity. Qed.
